@@ -61,11 +61,11 @@ func genC03(r *rand.Rand, tier string, idx int) *World {
 		var k string
 		switch mix {
 		case "mostly-old":
-			k = pick(r, "oldReady", "oldReady", "oldReady", "oldUnready", "oldUnready", "none", "newReady", "oldTerm", "stuck", "newUnready", "oldFailed2")
+			k = pick(r, "oldReady", "oldReady", "oldReady", "oldUnready", "oldUnready", "none", "newReady", "oldTerm", "stuck", "newUnready", "oldFailed2", "newStuckReady")
 		case "mixed":
 			k = c03Kinds[r.IntN(7)]
 			if chance(r, 0.15) {
-				k = pick(r, "oldFailed", "oldFailed2", "newFailed")
+				k = pick(r, "oldFailed", "oldFailed2", "newFailed", "newStuckReady", "oldStuckReady")
 			}
 		default:
 			k = pick(r, "newReady", "newReady", "newReady", "oldReady", "oldUnready", "newUnready", "none", "oldTerm", "stuck")
@@ -141,6 +141,11 @@ func bodyC03(s *Sim) {
 			s.injectLegacyPod(def, n, PodState{Kind: "ready"})
 		case "legacyUnready":
 			s.injectPod(oldRS, n, PodState{Kind: "unready"})
+		case "newStuckReady":
+			// the kubelet died: the pod is Terminating past its grace period and still shows Ready
+			s.injectPod(newRS, n, PodState{Kind: "ready", StuckTerm: true})
+		case "oldStuckReady":
+			s.injectPod(oldRS, n, PodState{Kind: "ready", StuckTerm: true})
 		case "oldFailed":
 			s.injectPod(oldRS, n, PodState{Kind: "failed"})
 		case "oldFailed2":
